@@ -156,12 +156,12 @@ def run(ctx):
     sfx = '' if quick else '_thorough'
     what = 'statuses {400,404,416,429,500}' if quick else 'statuses {400,401,403,404,416,418,429,500,503,599}'
     kinds = 'GET and HEAD carriers' if quick else '5 carrier kinds'
-    model(ctx, 'OciErrorMC_design%s.cfg' % sfx, 'design: all laws, no exception; %s x 0..3 hops; %s' % (kinds, what))
-    model(ctx, 'OciErrorMC_impl%s.cfg' % sfx, 'model of the current code: laws outside the named cells K2/K2b/stutter, exact deviation inside; %s x 0..3 hops; %s' % (kinds, what))
+    model(ctx, 'OciErrorMC_%s.cfg' % ctx.tier, 'both modes in one run - design: every law without exception; impl (model of the current code): the laws '
+          'outside the named cells K2/K2b/stutter and exactly the named deviation inside; %s x 0..3 hops; %s' % (kinds, what))
     gen, _ = vlib.generate(ctx, 'OciErrorMC.tla', 'OciErrorMC_gen%s.cfg' % sfx)
     if not gen:
         raise vlib.Machinery('TLC exported no cases')
-    # concrete carriers for the abstract kinds (quick: 2 of 15 body carriers + 1 of 3 HEAD carriers per tree)
+    # concrete carriers for the abstract kinds (quick: 1 of 15 body carriers + 1 of 3 HEAD carriers per tree, rotating)
     cases = []
     nb = nh = 0
     for g in gen:
@@ -169,7 +169,7 @@ def run(ctx):
             lst = HEAD if not quick else [HEAD[nh % 3]]
             nh += 1
         else:
-            lst = BODY if not quick else [BODY[(2 * nb) % 15], BODY[(2 * nb + 1 + (nb // 15) % 14) % 15]]
+            lst = BODY if not quick else [BODY[(nb + nb // 15) % 15]]
             nb += 1
         for c in lst:
             cases.append(dict(id=len(cases), carrier=c, hops=HOPS, err=g['err']))
@@ -185,7 +185,7 @@ def run(ctx):
     traces = [os.path.join(td, 'tlc.ndjson')]
     groups = regroup(raw, traces[0])
     ctx.log('%d TLC-exported cases executed (%d trees); batches %s' % (len(cases), nb, groups))
-    nrand = 400 if quick else 24000
+    nrand = 300 if quick else 24000
     i = 0
     while nrand > 0:
         n = min(6000, nrand)
